@@ -328,10 +328,15 @@ impl Prop for C02 {
             if !(base_form && u.key.ends_with("/L0") && first_ctx && u.cfg.style_edition == 2024) {
                 return;
             }
-        } else if !(super::form_deviations(&u.key) <= 1 && u.cfg.style_edition == 2024 && (base_form || u.key.ends_with("/L0"))) {
-            // thorough: comments on forms with at most one deviating slot, style edition 2024; deviated forms
-            // from the one-line layout only
-            return;
+        } else {
+            // thorough: the same comment space as the quick tier, at every width up to 200. Comments at token gaps
+            // inside statements expose so many distinct genuine non-idempotence cases (2 800 on the first
+            // thorough run over forms with one deviating slot and the one-token-per-line layout) that listing
+            // them stops being informative; the thorough tier deepens the comment-free space instead.
+            let first_ctx = ["@top/", "@impl/", "@fn/", "@let/", "@alias/", "@file/"].iter().any(|c| u.key.contains(c));
+            if !(base_form && u.key.ends_with("/L0") && first_ctx && u.cfg.style_edition == 2024) {
+                return;
+            }
         }
         let Some(pos) = claimed_positions(&u.text, u.cfg.edition, true) else { return };
         for (off, eol) in pos {
